@@ -24,6 +24,9 @@ def main():
     shutil.rmtree(wt, ignore_errors=True)
     subprocess.run(["git", "-C", "/repo", "worktree", "add", "--detach", "-f", wt, "HEAD"], check=True, stdout=subprocess.DEVNULL, stderr=subprocess.DEVNULL)
     env = dict(os.environ, CARGO_TARGET_DIR="/scratch/seedtarget", CARGO_NET_OFFLINE="true")
+    if os.environ.get("SEED_RUSTFLAGS"):
+        env["RUSTFLAGS"] = os.environ["SEED_RUSTFLAGS"]
+        env["CARGO_TARGET_DIR"] = "/scratch/seedtarget-flags"
     feats = ["--features", os.environ["SEED_FEATURES"]] if os.environ.get("SEED_FEATURES") else []
     res = {}
     try:
